@@ -5,3 +5,9 @@ its predicate holds for the facts of that case, so a different violation is stil
 def c03_cov_stop(facts):
     """Damped NS run with compute_residuals=False (covariance-based stop) on a matrix with s_min > 1."""
     return bool(facts.get("cov_stop")) and facts.get("smin", 0) > 1
+
+
+def c18_clip_range(facts):
+    """Image whose values all lie in [-0.5, 1.5] (so the clip heuristic fires) and some outside [0, 1]."""
+    lo, hi = facts.get("min"), facts.get("max")
+    return lo is not None and lo >= -0.5 and hi <= 1.5 and (lo < 0 or hi > 1)
